@@ -77,3 +77,201 @@ Print Assumptions C02_frame.
 Print Assumptions C02_named_input.
 Print Assumptions C02_run_pointwise.
 Print Assumptions C02_run_rows.
+
+(* ==================================================================================================================
+   The data plumbing around the model (reservoirpy/utils/model_utils.py and the loop over sequences of Model.run):
+   model/Mapping.v, proofs/Mapping_proofs.v; tied to the source by the correspondence family "mapping"
+   (run/RunMapping.v, tools/props/c02.py).  Names are node ids; a Python dict is an association list in insertion order. *)
+From RV Require Import model.Mapping proofs.Mapping_proofs.
+
+Section C02_mapping.
+Context {row : Type}.
+Notation sq := (list row).
+
+(* unfold_mapping of a rectangular mapping (every name has the same number k of sequences): k mappings, the j-th of
+   which maps each name - same keys, same order - to its own j-th sequence; a mapping is accepted ONLY if it is
+   rectangular; and folding the per-sequence mappings back (the defaultdict path of fold_mapping) is the inverse. *)
+Theorem C02_mapping_unfold_fold (k : nat) (dm : dict (list sq)) :
+  (dm <> [] -> rectangular k dm ->
+   exists ms, unfold_mapping dm = Some ms /\ length ms = k /\
+              forall j, j < k -> nth j ms [] = slice dm j /\ keys (nth j ms []) = keys dm) /\
+  (forall ms, unfold_mapping dm = Some ms -> dm <> [] /\ exists k', rectangular k' dm /\ ms = map (slice dm) (seq 0 k')) /\
+  (forall ms, NoDup (keys dm) -> rectangular k dm -> 0 < k -> unfold_mapping dm = Some ms -> fold_many ms = dm).
+Proof.
+  split; [exact (unfold_spec k dm)|split; [exact (unfold_some dm)|intros ms; exact (fold_many_unfold k dm ms)]].
+Qed.
+
+(* folding ANY per-sequence results that are keyed alike (what the per-sequence runs return): exactly those keys, in
+   that order; under each key a list as long as the list of sequences, whose j-th entry is sequence j's value *)
+Theorem C02_mapping_fold_uniform {A : Type} (ks : list nat) (states : list (dict A)) :
+  NoDup ks -> states <> [] -> (forall s, In s states -> keys s = ks) ->
+  keys (fold_many states) = ks /\
+  forall k, In k ks -> exists l, lookup k (fold_many states) = Some l /\ length l = length states /\
+                                 forall j, j < length states -> nth_error l j = lookup k (nth j states []).
+Proof. exact (fold_many_uniform ks states). Qed.
+
+(* An array / list input reaches exactly the entry nodes: to_data_mapping gives one mapping per sequence, keyed by
+   exactly the input nodes, each holding that sequence.  A target array reaches exactly the trainable nodes that are
+   not `unsupervised`. *)
+Theorem C02_array_reaches_entries (mm : mmodel) (v : value row) :
+  (mm_inputs mm <> [] ->
+   to_data_mapping mm (DVal v) None =
+     Some (map (fun s => map (fun n => (mn_name n, s)) (mm_inputs mm)) (ragged_of v), repeat None (length (ragged_of v)))) /\
+  (forall k, In k (keys (build_mapping (trainable_nodes mm) (DVal v) IoTarget)) <->
+             exists n, In n (mm_nodes mm) /\ mn_name n = k /\ mn_trainable n = true /\ mn_unsup n = false).
+Proof. split; [exact (to_data_mapping_array mm v)|exact (build_mapping_target_keys mm v)]. Qed.
+
+(* A name-keyed input reaches exactly the named nodes: it is accepted only if every input node is named and all names
+   have the same number k of sequences; the j-th per-sequence mapping then has exactly the written keys, in the
+   written order, each with its own j-th sequence. *)
+Theorem C02_mapping_reaches_named (mm : mmodel) (m : dict (value row)) xs ys :
+  to_data_mapping mm (DMap m) None = Some (xs, ys) ->
+  (forall n, In n (mm_inputs mm) -> In (mn_name n) (keys m)) /\
+  exists k, (forall p, In p m -> length (ragged_of (snd p)) = k) /\ length xs = k /\ ys = repeat None k /\
+            forall j, j < k -> nth j xs [] = map (fun p => (fst p, nth j (ragged_of (snd p)) [])) m.
+Proof. exact (to_data_mapping_named mm m xs ys). Qed.
+End C02_mapping.
+
+Section C02_run.
+Context {F : Type} `{Num F}.
+Notation vec := (list F).
+Notation env := (@env F).
+Notation model := (@model F).
+
+(* ... down to the single timestep (graphflow.dispatch): at step t an array input gives row t to every input node and
+   nothing to any other node; a name-keyed input gives a node data only if it is named, and then row t of the sequence
+   written under its own name. *)
+Theorem C02_step_inputs (inputs : list mnode) (s : list vec) (xm : dict (list vec)) t d n :
+  (inputs <> [] -> t < length s ->
+   fst (nth t (steps_of (map (fun i => (mn_name i, s)) inputs)) d) n = if memb n (map mn_name inputs) then nth_error s t else None) /\
+  (t < length (steps_of xm) ->
+   (~ In n (keys xm) -> fst (nth t (steps_of xm) d) n = None) /\
+   (forall s', lookup n xm = Some s' -> fst (nth t (steps_of xm) d) n = nth_error s' t) /\
+   snd (nth t (steps_of xm) d) n = None).
+Proof. split; [exact (steps_of_array inputs s t d n)|exact (steps_of_named xm t d n)]. Qed.
+
+(* Model.run on several sequences = the one-sequence operation of ModelSem (run_op) applied to each sequence in turn,
+   every sequence starting from the environment the previous one left (reset / from_state / stateful=False applied per
+   sequence, as run_op defines them): run over a ++ b = run over a, then run over b; as many results as sequences, each
+   with one row per timestep; and Model.run on an array / list hands every sequence to the input nodes and folds the
+   per-sequence records. *)
+Theorem C02_run_sequences (mm : mmodel) (m : model) stateful reset from :
+  (forall a b (e : env),
+     run_seqs m stateful reset from (a ++ b) e =
+       let '(e1, oa, ok) := run_seqs m stateful reset from a e in
+       if ok then let '(e2, ob, ok2) := run_seqs m stateful reset from b e1 in (e2, oa ++ ob, ok2) else (e1, oa, false)) /\
+  (forall s (e : env),
+     run_seqs m stateful reset from [s] e =
+       let '(e1, o, ok) := run_op m stateful reset from s e in (e1, if ok then [o] else [], ok)) /\
+  (forall seqs (e e' : env) outs,
+     run_seqs m stateful reset from seqs e = (e', outs, true) ->
+     length outs = length seqs /\ forall j, j < length seqs -> length (nth j outs []) = length (nth j seqs [])) /\
+  (forall (v : value vec) rs (e : env) names,
+     mm_inputs mm <> [] -> ragged_of v <> [] -> allocate_returned_states mm rs = Some names ->
+     model_run mm m stateful reset from (DVal v) rs e =
+       let '(e1, outs, ok) :=
+         run_seqs (with_outputs m names) stateful reset from
+                  (map (fun s => steps_of (map (fun n => (mn_name n, s)) (mm_inputs mm))) (ragged_of v)) e in
+       (e1, if ok then fold_mapping mm (map (states_of_seq names) outs) rs else RErr, ok)).
+Proof.
+  split; [exact (run_seqs_app m stateful reset from)|split; [exact (run_seqs_one m stateful reset from)|
+  split; [exact (run_seqs_lengths m stateful reset from)|intros v rs e names; exact (model_run_array mm m stateful reset from v rs e names)]]].
+Qed.
+
+(* for plain stateful runs a list of sequences is one run over their concatenation (time-compositionality across the
+   sequences of one call) *)
+Theorem C02_run_sequences_concat (m : model) seqs (e e' : env) outs :
+  run_seqs m true false (fun _ => None) seqs e = (e', outs, true) -> run_steps m (concat seqs) e = (e', concat outs, true).
+Proof. exact (run_seqs_plain_concat m seqs e e' outs). Qed.
+
+(* Requested outputs come from exactly the named nodes: recording the states of [names] (allocate_returned_states)
+   instead of the output nodes changes neither the environments nor success, and row t of the record is the list of
+   the named nodes' states at the end of step t of that same run; the array returned under the i-th name is column i. *)
+Theorem C02_outputs_from_named (m : model) names :
+  (forall ss (e : env),
+     run_steps (with_outputs m names) ss e =
+       let '(e1, o, ok) := run_steps m ss e in
+       (e1, map (fun t => map (fun n => st (env_after m ss e (S t) n)) names) (seq 0 (length o)), ok)) /\
+  (forall (outs : list (list vec)) i, NoDup names -> i < length names ->
+     lookup (nth i names 0) (states_of_seq names outs) = Some (map (fun step => nth i step []) outs)).
+Proof. split; [exact (run_steps_with_outputs m names)|intros outs i; exact (states_of_seq_lookup names outs i)]. Qed.
+
+(* Result form.  return_states=None -> the output nodes, "all" -> every node, a list -> exactly the listed names (each
+   once; refused if one is not a node).  A successful Model.run returns: a bare array iff one input sequence, no
+   return_states and one output node; a bare list (one array per sequence) iff several sequences, no return_states,
+   one output node; otherwise a dict keyed by exactly the returned names, in order, of arrays (one sequence) or of lists
+   as long as the list of input sequences (several).  Never anything else. *)
+Theorem C02_result_form (mm : mmodel) (m : model) stateful reset from (X : data vec) rs (e e' : env) res :
+  mm_wf mm -> model_run mm m stateful reset from X rs e = (e', res, true) ->
+  exists names xs ys, allocate_returned_states mm rs = Some names /\ to_data_mapping mm X None = Some (xs, ys) /\
+    form_ok rs names (length xs) res /\
+    match rs with
+    | RsNone => names = map mn_name (mm_outputs mm)
+    | RsAll => names = node_names mm
+    | RsNames l => (forall k, In k names <-> In k l) /\ NoDup names /\ (forall k, In k l -> In k (node_names mm)) /\ (NoDup l -> names = l)
+    end.
+Proof.
+  intros Hwf Hr. destruct (model_run_form mm m stateful reset from X rs e e' res Hwf Hr) as [names [xs [ys [Ha [Ht Hf]]]]].
+  exists names, xs, ys. repeat split; try assumption. exact (allocate_spec mm rs names Ha).
+Qed.
+End C02_run.
+
+(* Non-vacuity on concrete instances.  The diamond ex_model above (entry 0, exit 3) seen by the plumbing: *)
+Definition ex_mm : mmodel :=
+  let n i := mkMN i false false false in mkMM [n 0; n 1; n 2; n 3] [n 0] [n 3].
+(* two entries 0 and 5, a trainable supervised node 1, a trainable unsupervised node 2 *)
+Definition ex_mm2 : mmodel :=
+  mkMM [mkMN 0 false false false; mkMN 5 false false false; mkMN 1 true false false; mkMN 2 true true true; mkMN 3 false false false]
+       [mkMN 5 false false false; mkMN 0 false false false] [mkMN 3 false false false; mkMN 2 true true true].
+Definition ex_dm : dict (list (list nat)) := [(5, [[1; 2]; [3]; [4; 5; 6]]); (0, [[7; 8]; [9]; [10; 11; 12]])].
+
+Example C02_mapping_unfold_fold_example :
+  NoDup (keys ex_dm) /\ rectangular 3 ex_dm /\
+  unfold_mapping ex_dm = Some [[(5, [1; 2]); (0, [7; 8])]; [(5, [3]); (0, [9])]; [(5, [4; 5; 6]); (0, [10; 11; 12])]] /\
+  fold_many [[(5, [1; 2]); (0, [7; 8])]; [(5, [3]); (0, [9])]; [(5, [4; 5; 6]); (0, [10; 11; 12])]] = ex_dm /\
+  unfold_mapping [(5, [[1; 2]; [3]]); (0, [[7; 8]])] = None.
+Proof.
+  split; [repeat constructor; cbn; intuition discriminate|]. split; [intros p [E|[E|[]]]; subst; reflexivity|].
+  repeat split; reflexivity.
+Qed.
+
+Example C02_array_reaches_entries_example :
+  to_data_mapping ex_mm2 (DArr3 [[1; 2]; [3]]) None = Some ([[(5, [1; 2]); (0, [1; 2])]; [(5, [3]); (0, [3])]], [None; None]) /\
+  keys (build_mapping (trainable_nodes ex_mm2) (DArr2 [1; 2]) IoTarget) = [1] /\
+  to_data_mapping ex_mm2 (DArr2 [1; 2]) (Some (DArr2 [4; 4])) = Some ([[(5, [1; 2]); (0, [1; 2])]], [Some [(1, [4; 4])]]).
+Proof. repeat split; reflexivity. Qed.
+
+Example C02_mapping_reaches_named_example :
+  to_data_mapping ex_mm2 (DMap [(0, VList [[1; 2]; [3]]); (5, VArr3 [[7; 8]; [9]])]) None
+    = Some ([[(0, [1; 2]); (5, [7; 8])]; [(0, [3]); (5, [9])]], [None; None]) /\
+  to_data_mapping ex_mm2 (DMap [(0, VList [[1; 2]; [3]])]) None = None /\                           (* input node 5 is not named *)
+  to_data_mapping ex_mm2 (DMap [(0, VList [[1; 2]; [3]]); (5, VArr2 [7; 8])]) None = None.          (* 2 sequences vs 1 *)
+Proof. repeat split; reflexivity. Qed.
+
+(* Model.run of the diamond on a list of two sequences (2 and 1 timesteps): node 1 is an accumulator, so the second
+   sequence continues from the state the first one left; with return_states=None the single output node gives a bare
+   list of two arrays; with return_states=[1; 3] a dict of lists keyed 1, 3; one sequence gives bare arrays. *)
+Example C02_run_sequences_example :
+  mm_wf ex_mm /\
+  (let '(_, res, ok) := model_run ex_mm ex_model true false (fun _ => None) (DList [[[3%Q]; [1%Q]]; [[0%Q]]]) RsNone ex_env in (res, ok))
+    = (RBareList [[[12; -7]; [15; -3]]; [[16; -1]]], true)%Q /\
+  (let '(_, res, ok) := model_run ex_mm ex_model true false (fun _ => None) (DList [[[3%Q]; [1%Q]]; [[0%Q]]]) (RsNames [1; 3; 1]) ex_env in (res, ok))
+    = (RDictList [(1%nat, [[[12]; [15]]; [[16]]]); (3%nat, [[[12; -7]; [15; -3]]; [[16; -1]]])], true)%Q /\
+  (let '(_, res, ok) := model_run ex_mm ex_model true false (fun _ => None) (DArr3 [[[3%Q]; [1%Q]]]) RsNone ex_env in (res, ok))
+    = (RBare [[12; -7]; [15; -3]], true)%Q /\
+  (let '(_, res, ok) := model_run ex_mm ex_model true false (fun _ => None) (DMap [(0, VArr2 [[3%Q]])]) RsAll ex_env in (res, ok))
+    = (RDict [(0%nat, [[7]]); (1%nat, [[12]]); (2%nat, [[-7]]); (3%nat, [[12; -7]])], true)%Q.
+Proof.
+  split; [split; repeat constructor; cbn; intuition discriminate|].
+  repeat split; vm_compute; reflexivity.
+Qed.
+
+Print Assumptions C02_mapping_unfold_fold.
+Print Assumptions C02_mapping_fold_uniform.
+Print Assumptions C02_array_reaches_entries.
+Print Assumptions C02_mapping_reaches_named.
+Print Assumptions C02_step_inputs.
+Print Assumptions C02_run_sequences.
+Print Assumptions C02_run_sequences_concat.
+Print Assumptions C02_outputs_from_named.
+Print Assumptions C02_result_form.
